@@ -182,6 +182,20 @@ class AB:
             self.exp["marks"] += [(si, r[2]) for r in b.exp[ci]["replies"]]
         return si
 
+    def user(self, name=b"carol", pw=b"s3cret pw", plan=None, prompt_name=False):
+        """the 'user' command on an open session: the password (and, without an argument, the name) is asked for on its own line"""
+        if prompt_name:
+            self.line(b"user")
+            extra = [name, pw]
+        else:
+            self.line(b"user " + quote(name))
+            extra = [pw]
+        if not self.connected:
+            return
+        self.lines += extra
+        ci = self.b.login(name, pw, plan)
+        self.exp["marks"] += [(self.cur_si(), r[2]) for r in self.b.exp[ci]["replies"]]
+
     def cur_si(self):
         return len(self.b.sessions) - 1
 
@@ -379,8 +393,12 @@ def session_body(a, rng, dist, nops, faults=False):
             a.usage(v, *USAGE[v])
         elif r < 0.5:
             a.local_cmd(rng.choice(["mode", "active", "passive", "help", "type", "type"]))
-        elif r < 0.55:
+        elif r < 0.53:
             a.junk()
+        elif r < 0.55:
+            a.user(rng.choice([b"carol", b"anonymous", b"x y"]), rng.choice([b"s3cret pw", b"", b"pass\"word"]),
+                   plan=dict(user=rng.choice([331, 331, 230, 530])), prompt_name=rng.random() < 0.4)
+            dist.add("net-verb:user")
         elif r < 0.6:
             a.set_type(rng.choice("AI"), rng.choice([200, 200, 504]))
         elif r < 0.65:
